@@ -491,6 +491,9 @@ func e2eMode(fam string, pickCol func(r *rand.Rand) Col, statePatterns bool) fun
 			cfg := cfgs[i%len(cfgs)]
 			l := &Log{Cfg: cfg}
 			ncols := 1 + e.R.Intn(5)
+			if i%5 == 4 {
+				ncols = 9 + e.R.Intn(12) // wider than one bitmap byte: partial images then have smaller bitmaps than the table
+			}
 			t := &Table{ID: uint64(200 + i), DB: "dv", Name: "t" + itoa(i)}
 			for c := 0; c < ncols; c++ {
 				col := pickCol(e.R)
@@ -1115,6 +1118,9 @@ func modeC16(e *Env) {
 			cfg := codecCfg
 			cfg.Checksum = alg == 1
 			cfg.NTypes = pick(e.R, 35, 38, 40, 41, 27+e.R.Intn(229), 255)
+			if i%2 == 0 {
+				cfg.SizesFill = byte(1 + e.R.Intn(250))
+			}
 			cfg.SrvVer = string(randBytes(e.R, pick(e.R, 0, 1, 49, 50, e.R.Intn(51))))
 			for j := 0; j < len(cfg.SrvVer); j++ { // a server version has no NUL bytes
 				if cfg.SrvVer[j] == 0 {
